@@ -1,7 +1,7 @@
 (** Property C20 — data and values flow between csvpaths as declared.
     Statements only; proofs in Mgr/ChainProofs.v (using the csv round trip for data.csv). *)
 From Coq Require Import ZArith List Bool.
-From V Require Import Csv.CsvModel Csv.CsvProofs Mgr.Archive Mgr.Chain Mgr.ChainProofs.
+From V Require Import Csv.CsvModel Csv.CsvProofs Data.DataModel Mgr.Archive Mgr.Chain Mgr.ChainProofs.
 Import ListNotations.
 Open Scope Z_scope.
 
@@ -35,6 +35,30 @@ Theorem C20_var_ref_frame : forall (V : Type) keq g g' v ms st, g <> g' ->
   var_ref V keq g v (record_run V g' ms st) = var_ref V keq g v st.
 Proof. exact var_ref_other_group. Qed.
 Print Assumptions C20_var_ref_frame.
+
+(** a results reference used as a file name replays exactly the referenced member's collected lines (whatever the cell text,
+    no CR), and a chain run over it is the chain over those lines: a source-mode: preceding member reads its predecessor's
+    lines, not the referenced file again.  (A referenced member that collected nothing has no data.csv: D14b.) *)
+Theorem C20_replay : forall c, no_cr c -> c <> [] -> replay_input c = Some c.
+Proof. exact replay_is_collected. Qed.
+Print Assumptions C20_replay.
+Theorem C20_replay_chain : forall c ss, no_cr c -> c <> [] -> Forall well_behaved ss ->
+  replay_chain c ss = Collected (compose_from c None ss).
+Proof. exact replay_chain_composes. Qed.
+Print Assumptions C20_replay_chain.
+Theorem C20_replay_empty_refuted : replay_chain [] [mkStage false (fun i => i)] = NoDataFile [].
+Proof. exact replay_empty_refuted. Qed.
+Print Assumptions C20_replay_empty_refuted.
+
+(** a header reference $name.headers.h is the column of h over the referenced member's collected lines: exactly the values #h
+    reads on each of them (Header.to_value), lines too short for it left out, in file order; an unknown header gives no list *)
+Theorem C20_header_ref : forall hs h collected vs, header_ref hs h collected = Some vs ->
+  vs = somes (map (value_by_name hs h) collected) /\ (length vs <= length collected)%nat.
+Proof. intros hs h collected vs H. split; [exact (header_ref_is_column hs h collected vs H)|exact (header_ref_length hs h collected vs H)]. Qed.
+Print Assumptions C20_header_ref.
+Theorem C20_header_ref_unknown : forall hs h collected, header_index h hs = None -> header_ref hs h collected = None.
+Proof. exact header_ref_unknown. Qed.
+Print Assumptions C20_header_ref_unknown.
 
 Example C20_nonvacuous :
   (* stage 1 keeps records whose first cell is not "x"; stage 2 (preceding) drops its first record *)
